@@ -57,6 +57,7 @@ class Engine:
         self.seed = int(opts.get("seed", 0))
         self.no_witness = bool(opts.get("no_witness"))
         self.rlimit_per_ms = int(opts.get("rlimit_per_ms", 4000))
+        self.witness_budget_s = float(opts.get("witness_budget_s", 45.0))
         self.cvc5_budget = int(opts.get("cvc5_recheck", 0))
         if self.seed:
             self.solver.set("random_seed", self.seed % (2**31))
@@ -345,7 +346,7 @@ class Engine:
             if self.no_witness:
                 self.failures.append({"label": label, "witness": {}, "alts": [], "info": info, "prefix_len": len(self.prefix)})
                 return False
-            ws = self._witnesses(z3.Not(phi), m, evals)
+            ws = self._witnesses_budgeted(z3.Not(phi), m, evals)
             self.failures.append({"label": label, "witness": ws[0], "alts": ws[1:], "info": info, "prefix_len": len(self.prefix)})
             return False
         self.oblig.append((label, "unknown"))
@@ -457,6 +458,19 @@ class Engine:
                 return r, m
         return z3.unknown, None
 
+    def _witnesses_budgeted(self, goal, m, evals):
+        """Diverse, realistic witnesses are expensive (every pin is a solver call): the scenario process spends
+        at most `witness_budget_s` on them in total; later failures carry the solver's raw model only."""
+        if _WITNESS_SPENT[0] > self.witness_budget_s:
+            w = self.witness(m, evals)
+            w["realized"] = False
+            return [w]
+        t = time.time()
+        try:
+            return self._witnesses(goal, m, evals)
+        finally:
+            _WITNESS_SPENT[0] += time.time() - t
+
     def _witnesses(self, goal, m, evals, k=5):
         """Up to k diverse models of PC & goal, each made realistic where possible."""
         out = []
@@ -499,7 +513,7 @@ class Engine:
             self.inconclusive.append(label)
             return
         self.oblig.append((label, "sat"))
-        ws = self._witnesses(z3.BoolVal(True), m, evals)
+        ws = self._witnesses_budgeted(z3.BoolVal(True), m, evals)
         self.failures.append({"label": label, "witness": ws[0], "alts": ws[1:], "info": info, "prefix_len": len(self.prefix)})
 
     def _realize(self, goal, m):
@@ -514,6 +528,8 @@ class Engine:
         try:
             self.solver.add(goal)
             self.solver.set("timeout", self.prove_timeout)
+            self.solver.set("rlimit", int(self.prove_timeout) * self.rlimit_per_ms)
+            t_end = time.time() + 3.0 * self.prove_timeout / 1000.0  # the whole pinning pass is budgeted
             cur = m
             pinned = 0
 
@@ -580,6 +596,8 @@ class Engine:
                     if b is None:
                         continue
                     cons.append(b)
+                if time.time() > t_end:
+                    return None
                 self.solver.push()
                 self.solver.add(*cons)
                 r = self.solver.check()
@@ -905,7 +923,7 @@ class SB:
     __radd__ = __add__
 
     def __repr__(self):
-        return f"SB({self.e})"
+        return f"SB({_short(self.e)})"
 
     def __deepcopy__(self, memo):
         return self
@@ -1146,7 +1164,8 @@ class SR:
             canon = z3.simplify(self.e, som=True, sort_sums=True, flat=True)
         except z3.Z3Exception:
             canon = s
-        key = ("sqrt", canon.sexpr() if len(str(canon)) < 4000 else s.get_id())
+        sx = canon.sexpr()  # (the C-level printer; z3's Python pretty-printer is far too slow on large terms)
+        key = ("sqrt", sx if len(sx) < 20000 else s.get_id())
         eng = E()
         r = eng.apps.get(key)
         if r is None:
@@ -1169,6 +1188,33 @@ class SR:
     def sign(self):
         return SR(z3.If(self.e > 0, z3.RealVal(1), z3.If(self.e < 0, z3.RealVal(-1), z3.RealVal(0))))
 
+    def floor(self):
+        return SI(z3.ToInt(self.e))
+
+    def ceil(self):
+        return SI(-z3.ToInt(-self.e))
+
+    def __floor__(self):
+        return self.floor()
+
+    def __ceil__(self):
+        return self.ceil()
+
+    def __trunc__(self):
+        return SI(z3.If(self.e >= 0, z3.ToInt(self.e), -z3.ToInt(-self.e)))
+
+    def __round__(self, ndigits=None):
+        """Round half to even on the REAL value (a float's decimal rounding differs only at representation
+        level, never by more than one unit in the last kept digit)."""
+        d = 0 if ndigits is None else int(ndigits)
+        sc = z3.RealVal(Fraction(10) ** d)
+        y = self.e * sc
+        fl = z3.ToInt(y)
+        fr = y - z3.ToReal(fl)
+        half = z3.RealVal(Fraction(1, 2))
+        r = z3.If(fr < half, fl, z3.If(fr > half, fl + 1, z3.If(fl % 2 == 0, fl, fl + 1)))
+        return SI(r) if ndigits is None else SR(z3.ToReal(r) / sc)
+
     def __deepcopy__(self, memo):
         return self
 
@@ -1184,12 +1230,8 @@ class SR:
             return float(Fraction(s.numerator_as_long(), s.denominator_as_long()))
         raise Unsupported("float() on a symbolic real")
 
-    def __round__(self, n=None):
-        raise Unsupported("round() on a symbolic real")
-
     def __repr__(self):
-        s = str(self.e)
-        return f"SR({s if len(s) < 120 else s[:117] + '...'})"
+        return f"SR({_short(self.e)})"
 
     def __format__(self, spec):
         return repr(self)
@@ -1400,7 +1442,7 @@ class SI:
         return self
 
     def __repr__(self):
-        return f"SI({self.e})"
+        return f"SI({_short(self.e)})"
 
     def __format__(self, spec):
         return repr(self)
@@ -1536,7 +1578,19 @@ class Result:
         }
 
 
+def _short(e):
+    """Bounded text for a term: z3's Python pretty-printer needs minutes on the large terms met here."""
+    try:
+        if z3.is_const(e) or z3.is_rational_value(e) or z3.is_int_value(e) or (e.num_args() <= 3 and all(z3.is_const(a) or z3.is_rational_value(a) for a in e.children())):
+            s = str(e)
+            return s if len(s) < 120 else s[:117] + "..."
+        return f"<{e.decl().name()}-term #{e.get_id()}>"
+    except Exception:  # noqa: BLE001
+        return "<term>"
+
+
 _HARNESS = {}
+_WITNESS_SPENT = [0.0]  # seconds this (scenario) process has spent on witness generation
 _TRACE_PREFIX = (os.environ.get("QVERIF_SRC") or "/repo/src").rstrip("/") + "/"
 _seen_code = set()
 
@@ -1617,7 +1671,7 @@ def _task(key, prefix, opts, budget):
     return out, stack, sorted(_seen_code)
 
 
-def explore(fn, opts=None, workers=None, max_paths=200000, deadline_s=None):
+def explore(fn, opts=None, workers=None, max_paths=200000, deadline_s=None, progress=None):
     """Explore all feasible paths of fn(); obligations are proved inside fn via E().prove."""
     opts = dict(opts or {})
     res = Result()
@@ -1632,6 +1686,8 @@ def explore(fn, opts=None, workers=None, max_paths=200000, deadline_s=None):
             p = _run_one(fn, stack.pop(), opts)
             stack.extend(p.pop("work"))
             res.merge_path(p)
+            if progress is not None:
+                progress(res)
             if res.paths > max_paths or (deadline_s and time.time() - t0 > deadline_s):
                 res.bound_hits.append(f"path/time budget hit after {res.paths} paths")
                 break
